@@ -193,16 +193,22 @@ def gen_box(r, dim):
 def grid_class(gs):
     import sparseSpACE.Grid as G
     return {"Trapezoidal": G.TrapezoidalGrid, "ClenshawCurtis": G.ClenshawCurtisGrid, "GaussLegendre": G.GaussLegendreGrid,
+            "Leja": G.LejaGrid,
             "Lagrange": G.LagrangeGrid, "GlobalTrapezoidal": G.GlobalTrapezoidalGrid, "GlobalHighOrder": G.GlobalHighOrderGrid,
             "GlobalRomberg": G.GlobalRombergGrid, "GlobalBalancedRomberg": G.GlobalBalancedRombergGrid}[gs["name"]]
 
 
 def grid_kwargs(gs):
     n = gs["name"]
-    if n in ("Trapezoidal", "GlobalTrapezoidal"):
+    old = {"integrator": "old"} if gs.get("integrator") == "old" else {}     # the point-wise IntegratorArbitraryGrid
+    if n == "Trapezoidal":
+        return dict({"boundary": gs["boundary"], "modified_basis": gs.get("modified", False)}, **old)
+    if n == "GlobalTrapezoidal":
         return {"boundary": gs["boundary"], "modified_basis": gs.get("modified", False)}
     if n == "ClenshawCurtis":
-        return {"boundary": gs["boundary"]}
+        return dict({"boundary": gs["boundary"]}, **old)
+    if n == "Leja":
+        return dict({"boundary": gs["boundary"]}, **old)
     if n == "GaussLegendre":
         return {}
     if n == "Lagrange":
@@ -217,7 +223,8 @@ def grid_kwargs(gs):
 
 
 def grid_label(gs):
-    return gs["name"] + ("(p=%d)" % gs["p"] if "p" in gs else "") + ("(deg=%d)" % gs["max_degree"] if "max_degree" in gs else "")
+    return (gs["name"] + ("(p=%d)" % gs["p"] if "p" in gs else "") + ("(deg=%d)" % gs["max_degree"] if "max_degree" in gs else "") +
+            ("(old)" if gs.get("integrator") == "old" else ""))
 
 
 def is_nodal(gs):
@@ -701,6 +708,8 @@ def case_standard(ctx, drv, case):
                 ok = False
                 ctx.corr_break("C05/points-weights", case, {"component": k, "impl_n": len(ws), "model": out[:200]})
     ctx.count("std_components", len(sch))
+    ctx.count("std_grid_" + grid_label(gs))
+    ctx.count("std_negative_combined_component_weights", sum(1 for r_ in rules for w in r_[1] if w < 0))
     return ok
 
 
@@ -1157,14 +1166,28 @@ def gen_micro(ctx, thorough):
     return {"kind": "micro", "outl": outl, "ops": ops}
 
 
-def gen_standard(ctx, thorough):
+STD_CONFIGS = [   # cycled; "old" = the point-wise integrator; Leja rules have NEGATIVE weights from 1-D level 3 on
+    {"name": "Trapezoidal", "boundary": True},
+    {"name": "Leja", "boundary": True, "integrator": "old"},
+    {"name": "ClenshawCurtis", "boundary": True},
+    {"name": "Trapezoidal", "boundary": False},
+    {"name": "GaussLegendre", "boundary": True},
+    {"name": "Trapezoidal", "boundary": True, "integrator": "old"},
+    {"name": "Leja", "boundary": True},
+    {"name": "ClenshawCurtis", "boundary": True, "integrator": "old"},
+]
+
+
+def gen_standard(ctx, thorough, index=0):
     r = ctx.rng
-    dim = r.choice([2, 2, 3])
-    lmin = r.choice([1, 1, 2])
-    lmax = lmin + r.randint(0, 2 if dim == 2 else 1)
-    gs = r.choice([{"name": "Trapezoidal", "boundary": True}, {"name": "Trapezoidal", "boundary": True},
-                   {"name": "Trapezoidal", "boundary": False}, {"name": "ClenshawCurtis", "boundary": True},
-                   {"name": "GaussLegendre", "boundary": True}])
+    gs = dict(STD_CONFIGS[index % len(STD_CONFIGS)])
+    if gs["name"] == "Leja":
+        dim, lmin = 2, 1
+        lmax = r.choice([3, 3, 4])          # negative weights need a 1-D level >= 3
+    else:
+        dim = r.choice([2, 2, 3])
+        lmin = r.choice([1, 1, 2])
+        lmax = lmin + r.randint(0, 2 if dim == 2 else 1)
     a, b = gen_box(r, dim)
     return {"kind": "standard", "dim": dim, "lmin": lmin, "lmax": lmax, "grid": gs, "a": a, "b": b,
             "f": gen_fspec(r, dim, nondyadic=r.random() < 0.2)}
@@ -1266,7 +1289,7 @@ def run(ctx):
                 "random schemes of 0-4 components with coefficients in {-2..3}, dyadic vector-valued partial results, some components not "
                 "computed on some areas) on the real Integration+RefinementContainer+SpatiallyAdaptivBase around a table-valued stub grid, "
                 "state compared with the model after every operation; macro: StandardCombi (Trapezoidal with/without boundary, "
-                "ClenshawCurtis, GaussLegendre), DimAdaptiveCombi (every stopping iteration), dimension-wise (GlobalTrapezoidalGrid with/without boundary, GlobalHighOrderGrid "
+                "ClenshawCurtis, GaussLegendre, Leja lmax 3-4 (negative weights); default and point-wise 'old' integrator), DimAdaptiveCombi (every stopping iteration), dimension-wise (GlobalTrapezoidalGrid with/without boundary, GlobalHighOrderGrid "
                 "max_degree 3/5, default grid_surplusses, versions 2/3/6, with/without rebalancing and reference) and extend-split (version 0; "
                 "Trapezoidal, ClenshawCurtis, GaussLegendre, Lagrange p=2/3; with and without automatic_extend_split) in dim 2-3, lmin 1, lmax 2-3, "
                 "polynomial (dyadic and non-dyadic coefficients) or table-backed integrands with 1-3 outputs, 2-3 stops per run "
@@ -1303,7 +1326,7 @@ def run(ctx):
                 if fam == "micro":
                     case = gen_micro(ctx, thorough)
                 elif fam == "standard":
-                    case = gen_standard(ctx, thorough)
+                    case = gen_standard(ctx, thorough, counters[fam] - 1)
                 elif fam == "dim-adaptive":
                     case = gen_dimadaptive(ctx, thorough)
                 else:
